@@ -760,6 +760,27 @@ class LibsModel:
                 self.rebind(interp, st, frame, target, recv.w(elem=join(recv.elem, v)))
             return join(recv.elem, v)
         if name == 'update':
+            kw = dict(recv.kw or {})
+            extra_deps = frozenset()
+            open_kw = recv.open_kw
+            for a in args:
+                if a.ty == 'dict' and a.kw is not None and not a.open_kw and a.elem is None or (a.ty == 'dict' and a.kw):
+                    kw.update(a.kw)
+                    open_kw = open_kw or a.open_kw
+                else:
+                    open_kw = True
+                extra_deps |= (a.deps or frozenset())
+            for k_, v_ in kwargs.items():
+                if k_ == '**':
+                    open_kw = True
+                    extra_deps |= (v_.deps or frozenset())
+                    continue
+                kw[k_] = v_
+                extra_deps |= (v_.deps or frozenset())
+            if target is not None:
+                vals = list(kw.values())
+                self.rebind(interp, st, frame, target, recv.w(kw=kw, open_kw=open_kw, elem=join_all([recv.elem] + vals) if recv.elem is not None else None,
+                                                              deps=(recv.deps or frozenset()) | extra_deps, empty_init=None))
             return const(None)
         if name == 'pop':
             return recv.elem if recv.elem is not None else AV(deps=d)
